@@ -96,6 +96,7 @@ class World:
         self.raised = None
         self.log = []
         self.quiet_gone = False
+        self.partial_left = 0
 
     def arm(self, site, err):
         self.armed, self.site, self.err, self.calls = True, site, err, 0
@@ -159,6 +160,14 @@ def empty_when_gone(fn, pid):
 
 def access(fn, kind, pid, survives_zombie=False):
     """Every per-process native access goes through here."""
+    if getattr(W, "partial_left", 0) > 0 and pid == W.pid:
+        # ERROR_PARTIAL_COPY (ReadProcessMemory of a process that is starting up / exiting)
+        W.partial_left -= 1
+        W.log.append(fn + ":partial-copy")
+        e = OSError(_errno.EINVAL, "stub: ERROR_PARTIAL_COPY")
+        e.winerror = 299
+        W.raised = e
+        raise e
     if empty_when_gone(fn, pid):
         W.log.append(fn + ":empty")
         return
@@ -605,6 +614,27 @@ def run_row(psutil, mod, row):
         r = outcome(fn)
         r["cached"] = cached
         r.update(world_info())
+        return r
+    if k == "partial":
+        # Windows: the first n native accesses of the method answer ERROR_PARTIAL_COPY
+        W.reset(row["pid"], False, True, row.get("name", PROCNAME), row.get("scale", 1))
+        pkg = row.get("via") == "package"
+        target = psutil.Process(row["pid"]) if pkg else mod.Process(row["pid"])
+        table = PUBLIC_CALLS if pkg else MODULE_CALLS
+        if not pkg:
+            target._name = CACHED
+        slept = []
+        real_sleep = mod.time.sleep
+        mod.time.sleep = lambda d: slept.append(d)       # (the retries pause for up to a second)
+        W.partial_left = row["n"]
+        try:
+            r = outcome(lambda: call(target, row["m"], table))
+        finally:
+            mod.time.sleep = real_sleep
+            left = W.partial_left
+            W.partial_left = 0
+        r.update(world_info())
+        r["retries"], r["left"] = len(slept), left
         return r
     if k == "vanished":
         # the process is looked at while alive (inside a oneshot() block when asked), exits and is
